@@ -33,14 +33,22 @@ ASSUMPTIONS = ["'exits successfully exactly when the library call succeeds' is d
                "EqDelimStringParamType/options_from_eqdelimstring string handling is checked by a bounded CrossHair-free enumeration in C19 thorough tier only"]
 
 
+MULTI = {"patch", "optconf", "algorithm", "mount"}          # click options declared multiple=True whose values are consumed one by one
+
+
 def OPT(eng, name):
+    if name in MULTI:
+        # a multi-valued option: two generic values (loops over it run twice, so loop-carried effects are visible)
+        return tuple(z3.Const(f"OPT:{name}[{k}]", Obj) for k in range(2))
     o = z3.Const("OPT:" + name, Obj)
     eng.assume(z3.Implies(isnone_of(o), z3.Not(truthy_of(o))))
     return o
 
 
 def occurs(eng, value, sym):
-    """data dependence: the option symbol occurs in the (boxed) value"""
+    """data dependence: the option symbol occurs in the (boxed) value (for a multi-valued option: every one of its values)"""
+    if isinstance(sym, tuple):
+        return all(occurs(eng, value, s_) for s_ in sym)
     try:
         t = eng.box(value) if not is_z(value) else value
     except Unsupported:
@@ -300,7 +308,8 @@ def t_command(key):
                     if mode == "identity":
                         T.ob(eng, name, path.hyps(), z3.Or(*[_zb(eng.veq(h, sym)) for h in hits]), kind="forwarding", option=opt)
                     else:
-                        dep = any(occurs(eng, h, sym) for h in hits)
+                        dep = (all(any(occurs(eng, h, s_) for h in hits) for s_ in sym) if isinstance(sym, tuple)
+                               else any(occurs(eng, h, sym) for h in hits))
                         if dep and mode == "depends-only":
                             others = [o for o in names if o != opt and o not in enumvals and o != "output_file"]
                             leak = [o for o in others if all(occurs(eng, h, opts[o]) for h in hits if occurs(eng, h, sym))
